@@ -5,16 +5,24 @@ namespace FormulaicVerif.Model
 inductive DiffErr | nonTrivialFactors   -- RuntimeError("Cannot differentiate non-trivial factors without `sympy`.")
 deriving DecidableEq, Repr
 
+/-- `_differentiate_factors(factors, var, use_sympy=False)`: insists on exactly one factor and
+returns the empty set (`expr = 1`, `if expr == 1: return set()`) -/
+def differentiateFactors (affected : List Factor) : Except DiffErr (List Factor) :=
+  match affected with
+  | [_] => .ok []
+  | _ => .error .nonTrivialFactors
+
 /-- one pass of the `for var in wrt` loop body on the current factor list.
 `none` = the early `return Term({0})`; affected factors are those whose expr equals `var`
-(`_factor_symbols` is `{factor.expr}`); `_differentiate_factors` insists on exactly one of them and
-returns the empty set (`expr == 1`), so the new factors are `factors - affected`. -/
+(`_factor_symbols` is `{factor.expr}`); the new factors are
+`(factors - affected) | _differentiate_factors(affected, var)`. -/
 def diffStep (fs : List Factor) (v : String) : Except DiffErr (Option (List Factor)) :=
   let affected := fs.filter (fun f => f.expr == v)
-  match affected with
-  | [] => .ok none
-  | [_] => .ok (some (fs.filter (fun f => !(f.expr == v))))
-  | _ => .error .nonTrivialFactors
+  if affected.isEmpty then .ok none
+  else
+    match differentiateFactors affected with
+    | .error e => .error e
+    | .ok new => .ok (some (fs.filter (fun f => !(f.expr == v)) ++ new))
 
 def diffLoop : List Factor → List String → Except DiffErr (Option (List Factor))
   | fs, [] => .ok (some fs)
